@@ -3,6 +3,9 @@ mod driver;
 mod fam_builder;
 mod fam_plushy;
 mod fam_push;
+mod fam_dyn;
+mod fam_ops;
+mod fam_res;
 mod fam_sel;
 mod fam_lex;
 mod fam_stack;
@@ -12,6 +15,7 @@ mod selcommon;
 mod fam_xo;
 mod fam_mut;
 mod prims;
+mod probe;
 mod report;
 mod rng;
 mod shard;
@@ -62,6 +66,9 @@ fn main() {
         "mut" => fam_mut::run(&cfg),
         "rates" => fam_mut::run_rates(&cfg),
         "mut-selftest" => fam_mut::selftest(&cfg),
+        "ops" => fam_ops::run(&cfg),
+        "res" => fam_res::run(&cfg),
+        "dyn" => fam_dyn::run(&cfg),
         f => { eprintln!("unknown family {f}"); std::process::exit(2) }
     };
     let js = serde_json::to_string_pretty(&rep.to_json()).unwrap();
